@@ -14,7 +14,9 @@ from .. import core, explore, refcodec
 from ..vloop import VLoop
 from ..world import make_sd
 
-SENDERS = {"P": ("192.0.2.10", 30490), "Q": ("192.0.2.11", 30490)}
+SENDERS = {"P": ("192.0.2.10", 30490), "Q": ("192.0.2.11", 30490),
+           # the same link-local address seen on two interfaces / with another flow label: different senders
+           "R": ("fe80::1", 30490, 0, 2), "S": ("fe80::1", 30490, 0, 3), "T": ("fe80::1", 30490, 7, 2)}
 
 
 def ids_for(seed):
@@ -183,6 +185,7 @@ def check(ctx):
         ("two-senders-one-channel-closure", letters("PQ", (1,)), 10 ** 6, False),
         ("all-48-letters-depth-3", letters("PQ", (0, 1)), 3, False),
         ("one-sender-one-channel-with-entry-closure", letters("Q", (0,)), 10 ** 6, True),
+        ("ipv6-same-host-other-scope-depth-3", letters("RST", (1,)), 3, False),
     ]
     if ctx.thorough:
         searches.append(("four-keys-closure", letters("PQ", (0, 1)), 10 ** 6, False))
@@ -214,7 +217,7 @@ def check(ctx):
         states=states, transitions=transitions, traces_validated_against_impl=transitions,
         samples=samples.out(), searches=details, session_ids=list(ids),
         distinct_outcomes=len(outcomes), detections_expected=n_detect,
-        quiet_expected=transitions - n_detect, exhaustive=all(d["closure"] or d["search"].endswith("depth-3") for d in details),
+        quiet_expected=transitions - n_detect, exhaustive=all(d["closure"] or "depth-3" in d["search"] for d in details),
         determinism_replays=2,
     )
     return core.finish(ctx, "model_checking", cov, viols, [
